@@ -61,6 +61,12 @@ CHECKS.update({
    text='BOUNDED, partial: for every definition with up to 6 further id bytes and up to 12 encoded data bytes the built telegram is proved to be QQ ZZ PB SB NN id data with NN = number of following bytes, to be built whenever the definition is active and the field input accepted, to pass the exact id check of its definition and to be the stored last master data; prepareSlave/storeLastData store exactly the given parts and move the change time iff the data changed. For chains of 2..3 parts: part i carries the id of part i and the bytes [sum of lengths before i, +length i) of the encoded data, is identified back as that part and stored; storing a received part (any arrival order) files it under the part whose id it carries, and once all parts are present in time the joined master/slave value is the concatenation of the part data in part order (checked per byte: no loss, duplication, reordering), NN adjusted. Definition parsing (Message::create incl. the data length limit) and decoding of field values (DataFieldSet::read on the stored data; see C05/C10) are not part of this check.',
    note=TB + 'bounded by the model capacities (ids <= 6 further bytes, data <= 12 bytes, chains <= 3 parts with <= 3 data / 4 slave bytes per part; quick tier 2 parts); DataField::write is a stub appending a ghost byte array at the data offset it is given (growing with zeros like SymbolString::dataAt); chain well-formedness (equal id lengths, common prefix shorter than the ids, one length per part) is the assumed result of Message::create; stored parts with an arrival time carry the complete id (invariant, shown preserved).',
    ref='DESIGN.md I.2 (C09)'),
+ 'C19': dict(
+   technique='bounded CBMC check (harness-enforced contract) of the extracted AttributedItem::dumpString, FileReader::splitFields and FileReader::trim: write-then-read round trip of field texts over the full character set',
+   level='other',
+   text='BOUNDED, partial: every field text of up to 5 characters (two fields: up to 3 characters each) without line breaks and surrounding blanks, written with dumpString (quoting of separators and quotes) and read back with splitFields, yields exactly the same field list, the line is read as one line (a following line is never swallowed), for the full character set including field separators, value separators and single/doubled/leading/trailing quotes. The column mapping (MappedFileReader, MessageMap::getFieldMap/addFromFile), the definition writers (Message::dump, DataField::dump, DataType::dump) and therefore the whole-definition round trip are NOT decided.',
+   note=TB + 'bounded string model (line capacity 12 / 18 characters, unwinding assertions); std::string/ostringstream/istream/vector<string> are value models; lines starting with # or // (comment lines) and empty lines are excluded as first field; multi-line quoted fields are not generated by dumpString and are not covered.',
+   ref='DESIGN.md I.2 (C19)'),
  'C20': dict(
    technique='CBMC safety obligations (bounds, pointer, shift distance, signed overflow, division by zero, unwinding) on every extracted function under arbitrary-input preconditions',
    level='proof',
